@@ -127,6 +127,14 @@ func datagramID(b []byte) int {
 }
 
 // spinePayload is what an application hands to the SHIP data writer.
+// spinePayloadSized is spinePayload with a filler member of n bytes.
+func spinePayloadSized(id, n int) []byte {
+	if n <= 0 {
+		return spinePayload(id)
+	}
+	return []byte("{\"datagram\":{\"header\":{\"msgCounter\":" + strconv.Itoa(id) + "},\"payload\":{\"x\":" + strconv.Itoa(id) + ",\"filler\":\"" + strings.Repeat("f", n) + "\"}}}")
+}
+
 func spinePayload(id int) []byte {
 	return []byte("{\"datagram\":{\"header\":{\"msgCounter\":" + strconv.Itoa(id) + "},\"payload\":{\"x\":" + strconv.Itoa(id) + "}}}")
 }
